@@ -417,8 +417,10 @@ func step(r *rep.Report, locs map[string]*core.Location, m *ref.Loc, run *[]op, 
 				r.Violate("", what, wit(rep.J{"state": k, "got": got[k], "want": want}))
 				continue
 			}
-			if o.ViaJS {
-				// the same search issued by a script finds the same facts
+			if o.ViaJS && !ref.HasRepeatedVar(o.Pattern, nil) {
+				// the same search issued by a script finds the same facts (patterns with a repeated variable
+				// are left out: over structured values their answer varies from call to call, see the
+				// listed finding c05.repeated-var-structured)
 				pj, _ := json.Marshal(o.Pattern)
 				x, jerr := locs[k].RunJavascript(drv.Ctx(), "var fs = Env.Search("+string(pj)+").Found; var ids = []; for (var i = 0; i < fs.length; i++) { ids.push(fs[i].Id); }; ids.sort(); JSON.stringify(ids)", nil, nil, nil)
 				r.Count("searches_issued_by_a_script", 1)
